@@ -334,7 +334,23 @@ func hsSuite(r *Run, prop string) {
 		sc := runHSScript(cs, req, ops)
 		r.Op(sc.line(), sc.answer())
 		r.Count("transport:http-server-stream")
+		nv := len(r.Violations)
 		r.Eval(sc.line(), hsOracle(r, prop, sc))
+		for _, v := range r.Violations[nv:] {
+			// a new kind of failure: shrink the script (deterministic engine) and keep the minimal form with the violation
+			sig := v.Signature
+			still := func(rq, op []string) bool {
+				if len(op) == 0 || !strings.HasPrefix(op[len(op)-1], "ret:") {
+					return false
+				}
+				pr := newProbe(r)
+				hsOracle(pr, prop, runHSScript(cs, rq, op))
+				return hasSig(pr.Violations, sig)
+			}
+			minOps := shrinkOps(ops, func(c []string) bool { return still(req, c) })
+			minReq := shrinkOps(req, func(c []string) bool { return still(c, minOps) })
+			r.attachMinimal(sig, map[string]interface{}{"request_body": strings.Join(minReq, ","), "handler_ops": strings.Join(minOps, ";")})
+		}
 		if r.Dist["hs-samples"] < 2 {
 			r.Dist["hs-samples"]++
 			r.Sample(sc.desc())
